@@ -1,12 +1,1471 @@
-//! C14 — monitor not built yet (stub so that the registry is complete).
+//! C14 — function signatures never miss a register parameter.
+//!
+//! Monitor shape: the real `compute_function_signatures` is run on random small multi-function
+//! programs; an independent *upward-exposed-use* analysis (written from DESIGN.md "### C14", it never
+//! looks at abstract values, identifiers or access patterns) computes for every function a
+//! must-report set of parameter registers. Verdict: must-report ⊆ reported register parameters.
+//!
+//! Decisions about what is demanded (every one keeps the must-report set an under-approximation of
+//! "the entry value of R can be read on some path from the function entry before R is overwritten"):
+//!  * path = path in the control flow graph of the normalized program (no feasibility reasoning; the
+//!    generator never emits constant conditions);
+//!  * a use in a block that is unreachable from the function entry is not demanded;
+//!  * copies count (`RAX := RDI` reads RDI), sub-register style reads `Subpiece(..RDI..)`/casts count;
+//!  * a `Store [a] := Var(R)` counts only if no input of `a` can possibly hold a stack pointer
+//!    (flow-insensitive, program-wide name closure from the stack register through assignments, memory
+//!    and call returns); everything else that looks like a register spill is not demanded;
+//!  * expressions of `Return` jumps and of indirect jumps without known targets are not demanded
+//!    (DESIGN: jump expressions are only evaluated on CFG edges) — they are counted as observations;
+//!  * kills: assignment/load into R (by name); across every call edge every parameter register that
+//!    is not callee-saved or is a return register; a path passes an extern call only if the symbol
+//!    returns, an internal call only if a `Return` of the callee is reachable (least fixpoint), an
+//!    indirect call always;
+//!  * uses at a call (declared extern parameters, standard parameters and target of an indirect call,
+//!    must-parameters of an internal callee) do not need a return site and do not need the callee to
+//!    return: the entry value *is* read. Such uses get a qualified class (`...:no-return-site`,
+//!    `...:noreturn-symbol`, `...:only-on-nonreturning-callee-path`, extern parameters declared as a
+//!    sub-register expression `...:subregister-expr`). A miss all of whose exposed uses are qualified gets the
+//!    signature `miss-qualified:<root causes>` and a proposed known-finding key (inert until registered);
+//!    a miss with at least one ordinary exposed use gets `miss:<class>` and never a key;
+//!  * only the integer parameter registers of the (single) calling convention are judged; variables
+//!    with a register name but another size and registers outside `register_set` are never generated;
+//!  * the fixpoint's step limit (100 visits per node) is not reachable with <= 8 blocks per function;
+//!    no result within 60 s is reported like a panic (`hang:...`).
+
 use crate::core::*;
+use crate::irb::*;
+use crate::prng::Rng;
+use cwe_checker_lib::abstract_domain::AbstractLocation;
+use cwe_checker_lib::analysis::function_signature::compute_function_signatures;
+use cwe_checker_lib::analysis::graph::get_program_cfg;
+use cwe_checker_lib::intermediate_representation::*;
+use serde_json::{json, Value};
+use std::collections::{BTreeMap, BTreeSet};
 
 pub fn info() -> CheckInfo {
     CheckInfo {
         id: "C14",
-        rule: "(monitor not built yet)",
-        assumptions: &[],
-        run: |_cfg| Report::new(),
-        replay: |_cfg, _case| Report::new(),
+        rule: "random programs of 1-4 functions with 1-8 blocks each over the x86-64 System-V registers (reads of parameter registers in assigned expressions incl. plain copies, sub-register pieces and casts, in load/store addresses, stored values, branch conditions, indirect jump and call targets, as declared parameters of generically named extern symbols, as standard parameters of indirect calls and through internal callees incl. recursion; overwrites by assignment/load/call before or after the read on some or all paths; diamonds, loops, dead ends, non-returning callees, calls without return site) are normalised (normalize_basic, a third of them also normalize_optimize), the CFG is built and compute_function_signatures is run; an independent upward-exposed-use analysis over the same normalised program gives per function the set of parameter registers that must be reported; verdict must-report subset-of reported. one evaluation = one (function, parameter register) decision. non-trivial = function with >= 2 reachable blocks whose must-report set is neither empty nor all parameter registers, or which has a register that is read only after being overwritten on every path; distinct = hash of (program, function, normalisation mode)",
+        assumptions: &[
+            "a path is a path of the control flow graph of the normalised program (no path feasibility); conditions always depend on a register or flag",
+            "one calling convention (System V as __stdcall, in 1/8 of the programs with one or two parameter registers additionally declared callee-saved); variables named like a register always have the register's size; no CALLOTHER, no stack arguments of extern symbols, no float registers",
+            "extern symbols have generic names (no hand-written stub of the analysis applies)",
+            "a bare `Store [a] := R` is demanded only when `a` provably cannot be a stack address; Return expressions and indirect jumps without CFG edges are not demanded (DESIGN.md C14)",
+            "a panic of normalize_optimize is not judged here (inconclusive); a panic of the CFG builder or of compute_function_signatures, or no result within 60 s, is a violation",
+            "known-finding keys (c14-extern-param-subregister-expr, c14-param-of-noreturn-extern, c14-call-without-return-site, c14-callee-reads-on-nonreturning-path, c14-combination-of-known-causes) are attached only when every upward-exposed use of the missed register is of the corresponding qualified class",
+        ],
+        run,
+        replay,
     }
+}
+
+// ---------------------------------------------------------------------------------------------
+// Oracle: upward-exposed uses
+
+fn collect_inputs<'e>(e: &'e Expression, out: &mut Vec<&'e Variable>) {
+    match e {
+        Expression::Var(v) => out.push(v),
+        Expression::Const(_) | Expression::Unknown { .. } => (),
+        Expression::BinOp { lhs, rhs, .. } => {
+            collect_inputs(lhs, out);
+            collect_inputs(rhs, out);
+        }
+        Expression::UnOp { arg, .. } | Expression::Cast { arg, .. } | Expression::Subpiece { arg, .. } => collect_inputs(arg, out),
+    }
+}
+
+fn inputs(e: &Expression) -> Vec<&Variable> {
+    let mut v = Vec::new();
+    collect_inputs(e, &mut v);
+    v
+}
+
+#[derive(Clone, Debug, PartialEq, Eq)]
+pub struct UseSite {
+    pub reg: usize,
+    pub class: String,
+    pub blk: usize,
+    /// a `Return` of the function is reachable from the use
+    pub on_returning_path: bool,
+    /// the use is of a kind whose flag reaches the caller in a summary-at-return scheme
+    pub propagates: bool,
+}
+
+#[derive(Clone, Debug, Default, PartialEq, Eq)]
+pub struct SubFacts {
+    pub must: u32,
+    /// registers with a propagating use on a returning path (any class)
+    pub prop: u32,
+    /// the same, counting only uses of unqualified classes
+    pub pprop: u32,
+    /// registers with an exposed use of an unqualified class (on any path)
+    pub pmust: u32,
+    /// per register: root causes (bits of ROOTS) named by its qualified exposed uses
+    pub qroots: [u8; 8],
+    /// registers whose entry value may reach *some* point of a reachable block
+    pub uses: Vec<UseSite>,
+    pub reachable_blocks: usize,
+    /// registers that are read somewhere in a reachable block but never with their entry value
+    pub read_only_after_kill: u32,
+    /// exposed uses of classes that are deliberately not demanded: (reg, class)
+    pub excluded: Vec<(usize, String)>,
+}
+
+/// Per-function summaries used at internal call sites.
+pub struct Summaries {
+    pub must: Vec<u32>,
+    pub prop: Vec<u32>,
+    pub pprop: Vec<u32>,
+    pub pmust: Vec<u32>,
+    pub qroots: Vec<[u8; 8]>,
+}
+
+pub struct Oracle<'a> {
+    project: &'a Project,
+    pub params: Vec<Variable>,
+    all_mask: u32,
+    callee_saved_mask: u32,
+    maybe_stack: BTreeSet<String>,
+    subs: Vec<&'a Term<Sub>>,
+    sub_index: BTreeMap<Tid, usize>,
+    blk_index: Vec<BTreeMap<Tid, usize>>,
+}
+
+impl<'a> Oracle<'a> {
+    pub fn new(project: &'a Project) -> Result<Oracle<'a>, String> {
+        let cconv = project.get_standard_calling_convention().ok_or("no standard calling convention")?;
+        let params: Vec<Variable> = cconv.integer_parameter_register.clone();
+        if !cconv.float_parameter_register.is_empty() {
+            return Err("float parameter registers are outside the oracle's domain".into());
+        }
+        let subs: Vec<&Term<Sub>> = project.program.term.subs.values().collect();
+        for s in &subs {
+            let c = project.get_specific_calling_convention(&s.term.calling_convention).ok_or("no calling convention for sub")?;
+            if c.integer_parameter_register != params || c.callee_saved_register != cconv.callee_saved_register {
+                return Err("more than one calling convention in use".into());
+            }
+        }
+        for e in project.program.term.extern_symbols.values() {
+            let c = project.get_calling_convention(e);
+            if c.callee_saved_register != cconv.callee_saved_register {
+                return Err("more than one calling convention in use".into());
+            }
+        }
+        let all_mask = (1u32 << params.len()) - 1;
+        let mut callee_saved_mask = 0;
+        for (i, p) in params.iter().enumerate() {
+            // a register survives a call only if it is callee-saved and not a return register
+            if cconv.callee_saved_register.iter().any(|c| c.name == p.name) && !cconv.integer_return_register.iter().any(|c| c.name == p.name) {
+                callee_saved_mask |= 1 << i;
+            }
+        }
+        let sub_index = subs.iter().enumerate().map(|(i, s)| (s.tid.clone(), i)).collect();
+        let blk_index = subs.iter().map(|s| s.term.blocks.iter().enumerate().map(|(i, b)| (b.tid.clone(), i)).collect()).collect();
+        let mut o = Oracle { project, params, all_mask, callee_saved_mask, maybe_stack: BTreeSet::new(), subs, sub_index, blk_index };
+        o.compute_maybe_stack();
+        Ok(o)
+    }
+
+    fn pidx(&self, v: &Variable) -> Option<usize> {
+        self.params.iter().position(|p| p.name == v.name)
+    }
+
+    fn emask(&self, e: &Expression) -> u32 {
+        inputs(e).iter().filter_map(|v| self.pidx(v)).fold(0, |m, i| m | (1 << i))
+    }
+
+    /// Names of all variables that can possibly hold a value derived from the stack pointer
+    /// (flow-insensitive, whole program, through memory and therefore also through calls).
+    fn compute_maybe_stack(&mut self) {
+        let mut ms: BTreeSet<String> = BTreeSet::new();
+        ms.insert(self.project.stack_pointer_register.name.clone());
+        let mut mem_tainted = false;
+        loop {
+            let before = (ms.len(), mem_tainted);
+            for s in &self.subs {
+                for b in &s.term.blocks {
+                    for d in &b.term.defs {
+                        match &d.term {
+                            Def::Assign { var, value } => {
+                                if inputs(value).iter().any(|v| ms.contains(&v.name)) {
+                                    ms.insert(var.name.clone());
+                                }
+                            }
+                            Def::Store { value, .. } => {
+                                if inputs(value).iter().any(|v| ms.contains(&v.name)) {
+                                    mem_tainted = true;
+                                }
+                            }
+                            Def::Load { var, .. } => {
+                                if mem_tainted {
+                                    ms.insert(var.name.clone());
+                                }
+                            }
+                        }
+                    }
+                }
+            }
+            if before == (ms.len(), mem_tainted) {
+                break;
+            }
+        }
+        self.maybe_stack = ms;
+    }
+
+    fn extern_of(&self, t: &Tid) -> Option<&'a ExternSymbol> {
+        self.project.program.term.extern_symbols.get(t)
+    }
+
+    /// Successor blocks of block `b` of sub `s`: (index, edge passes a call).
+    fn successors(&self, s: usize, b: usize, can_return: &[bool]) -> Vec<(usize, bool)> {
+        let blk = &self.subs[s].term.blocks[b];
+        let idx = &self.blk_index[s];
+        let mut out = Vec::new();
+        for j in &blk.term.jmps {
+            match &j.term {
+                Jmp::Branch(t) | Jmp::CBranch { target: t, .. } => {
+                    if let Some(i) = idx.get(t) {
+                        out.push((*i, false));
+                    }
+                }
+                Jmp::BranchInd(_) => {
+                    for t in &blk.term.indirect_jmp_targets {
+                        if let Some(i) = idx.get(t) {
+                            out.push((*i, false));
+                        }
+                    }
+                }
+                Jmp::Call { target, return_: Some(r) } => {
+                    let passes = if let Some(ext) = self.extern_of(target) {
+                        !ext.no_return
+                    } else if let Some(c) = self.sub_index.get(target) {
+                        can_return[*c]
+                    } else {
+                        false
+                    };
+                    if passes {
+                        if let Some(i) = idx.get(r) {
+                            out.push((*i, true));
+                        }
+                    }
+                }
+                Jmp::CallInd { return_: Some(r), .. } => {
+                    if let Some(i) = idx.get(r) {
+                        out.push((*i, true));
+                    }
+                }
+                _ => (),
+            }
+        }
+        out
+    }
+
+    fn reachable(&self, s: usize, can_return: &[bool]) -> Vec<bool> {
+        let n = self.subs[s].term.blocks.len();
+        let mut seen = vec![false; n];
+        if n == 0 {
+            return seen;
+        }
+        let mut work = vec![0usize];
+        seen[0] = true;
+        while let Some(b) = work.pop() {
+            for (t, _) in self.successors(s, b, can_return) {
+                if !seen[t] {
+                    seen[t] = true;
+                    work.push(t);
+                }
+            }
+        }
+        seen
+    }
+
+    fn has_return(blk: &Term<Blk>) -> bool {
+        blk.term.jmps.iter().any(|j| matches!(j.term, Jmp::Return(_)))
+    }
+
+    fn compute_can_return(&self) -> Vec<bool> {
+        let mut can = vec![false; self.subs.len()];
+        loop {
+            let mut changed = false;
+            for s in 0..self.subs.len() {
+                if can[s] {
+                    continue;
+                }
+                let reach = self.reachable(s, &can);
+                if self.subs[s].term.blocks.iter().enumerate().any(|(i, b)| reach[i] && Self::has_return(b)) {
+                    can[s] = true;
+                    changed = true;
+                }
+            }
+            if !changed {
+                return can;
+            }
+        }
+    }
+
+    /// blocks from whose end a `Return` of the sub is reachable
+    fn reaches_return(&self, s: usize, can_return: &[bool]) -> Vec<bool> {
+        let blocks = &self.subs[s].term.blocks;
+        let n = blocks.len();
+        let mut rr: Vec<bool> = blocks.iter().map(Self::has_return).collect();
+        loop {
+            let mut changed = false;
+            for b in 0..n {
+                if !rr[b] && self.successors(s, b, can_return).iter().any(|(t, _)| rr[*t]) {
+                    rr[b] = true;
+                    changed = true;
+                }
+            }
+            if !changed {
+                return rr;
+            }
+        }
+    }
+
+    /// Walk one block. `alive` = parameter registers that may still hold their entry value.
+    /// Calls `on_use(mask_of_registers_read, class, propagates)` for every read, returns alive at block end
+    /// (before the kill of a call edge).
+    fn walk_block(&self, s: usize, b: usize, mut alive: u32, sums: &Summaries, on_use: &mut dyn FnMut(u32, u32, &str, bool, bool)) -> u32 {
+        // on_use(read_mask, alive, class, propagates, demanded)
+        let blk = &self.subs[s].term.blocks[b];
+        let idx = &self.blk_index[s];
+        for d in &blk.term.defs {
+            match &d.term {
+                Def::Assign { var, value } => {
+                    let class = if matches!(value, Expression::Var(_)) { "assign-copy" } else { "assign-expr" };
+                    on_use(self.emask(value), alive, class, true, true);
+                    if let Some(i) = self.pidx(var) {
+                        alive &= !(1 << i);
+                    }
+                }
+                Def::Load { var, address } => {
+                    on_use(self.emask(address), alive, "load-addr", true, true);
+                    if let Some(i) = self.pidx(var) {
+                        alive &= !(1 << i);
+                    }
+                }
+                Def::Store { address, value } => {
+                    on_use(self.emask(address), alive, "store-addr", true, true);
+                    if matches!(value, Expression::Var(_)) {
+                        let may_be_stack = inputs(address).iter().any(|v| self.maybe_stack.contains(&v.name));
+                        if may_be_stack {
+                            on_use(self.emask(value), alive, "store-val-bare:possible-stack-spill", true, false);
+                        } else {
+                            on_use(self.emask(value), alive, "store-val-bare", true, true);
+                        }
+                    } else {
+                        on_use(self.emask(value), alive, "store-val-expr", true, true);
+                    }
+                }
+            }
+        }
+        let has_edge = |t: &Tid| idx.contains_key(t);
+        for j in &blk.term.jmps {
+            match &j.term {
+                Jmp::Branch(_) => (),
+                Jmp::CBranch { target, condition } => {
+                    // the condition is evaluated on the edge of the conditional jump and on the edges of the jump following it
+                    let follow_edge = blk.term.jmps.iter().any(|o| match &o.term {
+                        Jmp::Branch(t) => has_edge(t),
+                        _ => false,
+                    });
+                    let demanded = has_edge(target) || follow_edge;
+                    on_use(self.emask(condition), alive, if demanded { "cbranch-cond" } else { "cbranch-cond:no-cfg-edge" }, true, demanded);
+                }
+                Jmp::BranchInd(e) => {
+                    let demanded = blk.term.indirect_jmp_targets.iter().any(has_edge);
+                    on_use(self.emask(e), alive, if demanded { "branchind-target" } else { "branchind-target:no-cfg-edge" }, true, demanded);
+                }
+                Jmp::Return(e) => on_use(self.emask(e), alive, "return-expr", true, false),
+                Jmp::Call { target, return_ } => {
+                    let site = if return_.is_some() { "" } else { ":no-return-site" };
+                    if let Some(ext) = self.extern_of(target) {
+                        for p in &ext.parameters {
+                            if let Arg::Register { expr, .. } = p {
+                                let mut class = String::from("extern-param");
+                                if !matches!(expr, Expression::Var(_)) {
+                                    class += ":subregister-expr";
+                                }
+                                if ext.no_return {
+                                    class += ":noreturn-symbol";
+                                } else {
+                                    class += site;
+                                }
+                                // nothing flows back from a symbol that does not return
+                                on_use(self.emask(expr), alive, &class, !ext.no_return && return_.is_some(), true);
+                            }
+                        }
+                    } else if let Some(c) = self.sub_index.get(target) {
+                        let m = sums.must[*c];
+                        if m != 0 {
+                            let p = sums.pprop[*c];
+                            let pm = sums.pmust[*c];
+                            if return_.is_none() {
+                                on_use(m, alive, "callee-param:no-return-site", false, true);
+                            } else {
+                                if m & p != 0 {
+                                    on_use(m & p, alive, "callee-param", true, true);
+                                }
+                                if m & !p & pm != 0 {
+                                    // the callee has an ordinary read of the register, but on no path that reaches a return
+                                    on_use(m & !p & pm, alive, "callee-param:only-on-nonreturning-callee-path", false, true);
+                                }
+                                for r in 0..self.params.len() {
+                                    let bit = 1u32 << r;
+                                    if m & !p & !pm & bit != 0 {
+                                        // every read in the callee is itself of a qualified class: inherit its root causes
+                                        let class = format!("callee-param:via-callee:{}", root_names(sums.qroots[*c][r]).join("+"));
+                                        on_use(bit, alive, &class, sums.prop[*c] & bit != 0, true);
+                                    }
+                                }
+                            }
+                        }
+                    }
+                }
+                Jmp::CallInd { target, return_ } => {
+                    let site = if return_.is_some() { "" } else { ":no-return-site" };
+                    on_use(self.emask(target), alive, &format!("callind-target{site}"), return_.is_some(), true);
+                    on_use(self.all_mask, alive, &format!("callind-param{site}"), return_.is_some(), true);
+                }
+                Jmp::CallOther { .. } => (),
+            }
+        }
+        alive
+    }
+
+    fn analyze_sub(&self, s: usize, sums: &Summaries, can_return: &[bool]) -> SubFacts {
+        let n = self.subs[s].term.blocks.len();
+        let mut facts = SubFacts::default();
+        if n == 0 {
+            return facts;
+        }
+        let mut alive_in = vec![0u32; n];
+        let mut reach = vec![false; n];
+        alive_in[0] = self.all_mask;
+        reach[0] = true;
+        loop {
+            let mut changed = false;
+            for b in 0..n {
+                if !reach[b] {
+                    continue;
+                }
+                let out = self.walk_block(s, b, alive_in[b], sums, &mut |_, _, _, _, _| ());
+                for (t, via_call) in self.successors(s, b, can_return) {
+                    let v = if via_call { out & self.callee_saved_mask } else { out };
+                    if !reach[t] || alive_in[t] | v != alive_in[t] {
+                        reach[t] = true;
+                        alive_in[t] |= v;
+                        changed = true;
+                    }
+                }
+            }
+            if !changed {
+                break;
+            }
+        }
+        let rr = self.reaches_return(s, can_return);
+        let mut read_any = 0u32;
+        for b in 0..n {
+            if !reach[b] {
+                continue;
+            }
+            facts.reachable_blocks += 1;
+            let mut uses: Vec<UseSite> = Vec::new();
+            let mut excluded: Vec<(usize, String)> = Vec::new();
+            self.walk_block(s, b, alive_in[b], sums, &mut |mask, alive, class, propagates, demanded| {
+                read_any |= mask;
+                let exposed = mask & alive;
+                for r in 0..self.params.len() {
+                    if exposed & (1 << r) != 0 {
+                        if demanded {
+                            uses.push(UseSite { reg: r, class: class.to_string(), blk: b, on_returning_path: rr[b], propagates });
+                        } else {
+                            excluded.push((r, class.to_string()));
+                        }
+                    }
+                }
+            });
+            facts.uses.extend(uses);
+            facts.excluded.extend(excluded);
+        }
+        for u in &facts.uses {
+            facts.must |= 1 << u.reg;
+            if !is_qualified(&u.class) {
+                facts.pmust |= 1 << u.reg;
+            } else {
+                facts.qroots[u.reg] |= roots_of(&u.class);
+            }
+            if u.propagates && u.on_returning_path {
+                facts.prop |= 1 << u.reg;
+                if !is_qualified(&u.class) {
+                    facts.pprop |= 1 << u.reg;
+                }
+            }
+        }
+        facts.read_only_after_kill = read_any & !facts.must & !facts.excluded.iter().fold(0, |m, (r, _)| m | (1 << r));
+        facts
+    }
+
+    /// Least fixpoint over the call graph.
+    pub fn solve(&self) -> Vec<SubFacts> {
+        let can_return = self.compute_can_return();
+        let n = self.subs.len();
+        let mut sums = Summaries { must: vec![0u32; n], prop: vec![0u32; n], pprop: vec![0u32; n], pmust: vec![0u32; n], qroots: vec![[0u8; 8]; n] };
+        let mut facts: Vec<SubFacts> = vec![SubFacts::default(); n];
+        loop {
+            let mut changed = false;
+            for s in 0..n {
+                let f = self.analyze_sub(s, &sums, &can_return);
+                // all summaries only grow (must/prop/pprop/pmust are monotone; qroots is accumulated, it only names causes)
+                let mut q = sums.qroots[s];
+                for r in 0..8 {
+                    q[r] |= f.qroots[r];
+                }
+                if f.must | sums.must[s] != sums.must[s] || f.prop | sums.prop[s] != sums.prop[s] || f.pprop | sums.pprop[s] != sums.pprop[s] || f.pmust | sums.pmust[s] != sums.pmust[s] || q != sums.qroots[s] {
+                    sums.must[s] |= f.must;
+                    sums.prop[s] |= f.prop;
+                    sums.pprop[s] |= f.pprop;
+                    sums.pmust[s] |= f.pmust;
+                    sums.qroots[s] = q;
+                    changed = true;
+                }
+                facts[s] = f;
+            }
+            if !changed {
+                return facts;
+            }
+        }
+    }
+}
+
+// ---------------------------------------------------------------------------------------------
+// Running the code under test and judging
+
+#[derive(Clone, Debug)]
+pub struct Miss {
+    pub sub: Tid,
+    pub reg: String,
+    pub signature: String,
+    pub known_key: Option<&'static str>,
+    pub uses: Vec<String>,
+}
+
+pub struct Evaluation {
+    pub project: Project,
+    pub sub_tids: Vec<Tid>,
+    pub facts: Vec<SubFacts>,
+    pub params: Vec<String>,
+    pub reported: Vec<BTreeSet<String>>,
+    pub misses: Vec<Miss>,
+}
+
+pub enum EvalError {
+    Inconclusive(String),
+    Panic(String, String),
+    /// no result within `EVAL_TIMEOUT_S` seconds (the worker thread is abandoned)
+    Timeout,
+}
+
+/// Normal cost of one evaluation is a few milliseconds; the limit only keeps a non-terminating or
+/// exploding analysis from hanging the whole run.
+pub const EVAL_TIMEOUT_S: u64 = 60;
+/// After this many timeouts in one run the remaining programs are skipped (each abandoned thread keeps a core busy).
+const MAX_TIMEOUTS: usize = 6;
+static TIMEOUTS: std::sync::atomic::AtomicUsize = std::sync::atomic::AtomicUsize::new(0);
+
+fn mask_names(mask: u32, params: &[String]) -> Vec<String> {
+    params.iter().enumerate().filter(|(i, _)| mask & (1 << i) != 0).map(|(_, p)| p.clone()).collect()
+}
+
+/// Class qualifiers that name a situation in which nothing can flow along a CFG edge of the caller.
+fn is_qualified(class: &str) -> bool {
+    class.contains(':')
+}
+
+/// Root causes a qualified class can name: (qualifier in a direct class, name of the root cause, proposed known-finding key).
+const ROOTS: [(&str, &str, &str); 4] = [
+    (":subregister-expr", "extern-param-is-subregister-expr", "c14-extern-param-subregister-expr"),
+    (":noreturn-symbol", "param-of-noreturn-extern", "c14-param-of-noreturn-extern"),
+    (":no-return-site", "call-without-return-site", "c14-call-without-return-site"),
+    (":only-on-nonreturning-callee-path", "callee-reads-only-on-nonreturning-path", "c14-callee-reads-on-nonreturning-path"),
+];
+pub const KNOWN_COMBINATION: &str = "c14-combination-of-known-causes";
+
+fn roots_of(class: &str) -> u8 {
+    let mut m = 0;
+    for (i, (qualifier, name, _)) in ROOTS.iter().enumerate() {
+        if class.contains(qualifier) || class.contains(name) {
+            m |= 1 << i;
+        }
+    }
+    m
+}
+
+fn root_names(mask: u8) -> Vec<&'static str> {
+    ROOTS.iter().enumerate().filter(|(i, _)| mask & (1 << i) != 0).map(|(_, r)| r.1).collect()
+}
+
+/// Signature and (discriminator) known-finding key of a miss whose exposed uses have the given classes.
+/// A miss gets a key only if *every* exposed use of the register is of a qualified class, i.e. each of them is
+/// a read that happens at a jump from which no state flows along a CFG edge, or an extern parameter declared as
+/// a sub-register expression.
+fn signature_of(classes: &BTreeSet<String>) -> (String, Option<&'static str>) {
+    let plain: Vec<&str> = classes.iter().filter(|c| !is_qualified(c)).map(|s| s.as_str()).collect();
+    if !plain.is_empty() {
+        // at least one use of an unqualified class was missed: name the most direct one (classes derived from
+        // other functions last) and only say that there are others
+        const PRIORITY: [&str; 12] = ["assign-copy", "assign-expr", "load-addr", "store-addr", "store-val-bare", "store-val-expr", "cbranch-cond", "branchind-target", "extern-param", "callind-target", "callind-param", "callee-param"];
+        let first = PRIORITY.iter().find(|p| plain.contains(*p)).copied().unwrap_or(plain[0]);
+        (format!("miss:{first}{}", if plain.len() > 1 { "+others" } else { "" }), None)
+    } else {
+        let roots = classes.iter().fold(0u8, |m, c| m | roots_of(c));
+        let key = match roots.count_ones() {
+            0 => None,
+            1 => Some(ROOTS[roots.trailing_zeros() as usize].2),
+            _ => Some(KNOWN_COMBINATION),
+        };
+        (format!("miss-qualified:{}", root_names(roots).join("+")), key)
+    }
+}
+
+type EvalResult = Result<Evaluation, EvalError>;
+
+/// A helper thread owned by one worker thread; it is abandoned (and replaced) when an evaluation times out.
+struct EvalHelper {
+    jobs: std::sync::mpsc::Sender<(Project, bool)>,
+    results: std::sync::mpsc::Receiver<EvalResult>,
+}
+
+impl EvalHelper {
+    fn start() -> Option<EvalHelper> {
+        let (jobs, job_rx) = std::sync::mpsc::channel::<(Project, bool)>();
+        let (res_tx, results) = std::sync::mpsc::channel::<EvalResult>();
+        std::thread::Builder::new()
+            .name("c14-eval".into())
+            .spawn(move || {
+                while let Ok((project, optimize)) = job_rx.recv() {
+                    if res_tx.send(evaluate_inner(&project, optimize)).is_err() {
+                        break;
+                    }
+                }
+            })
+            .ok()?;
+        Some(EvalHelper { jobs, results })
+    }
+}
+
+thread_local! {
+    static EVAL_HELPER: std::cell::RefCell<Option<EvalHelper>> = const { std::cell::RefCell::new(None) };
+}
+
+/// `evaluate_inner` on the worker's helper thread with a time limit.
+pub fn evaluate(raw: &Project, optimize: bool) -> EvalResult {
+    EVAL_HELPER.with(|slot| {
+        let mut slot = slot.borrow_mut();
+        if slot.is_none() {
+            *slot = EvalHelper::start();
+        }
+        let Some(helper) = slot.as_ref() else {
+            return evaluate_inner(raw, optimize);
+        };
+        if helper.jobs.send((raw.clone(), optimize)).is_err() {
+            *slot = None;
+            return Err(EvalError::Inconclusive("harness-panic:evaluation-thread-died".into()));
+        }
+        match helper.results.recv_timeout(std::time::Duration::from_secs(EVAL_TIMEOUT_S)) {
+            Ok(r) => r,
+            Err(std::sync::mpsc::RecvTimeoutError::Timeout) => {
+                *slot = None; // abandon the stuck thread
+                Err(EvalError::Timeout)
+            }
+            Err(std::sync::mpsc::RecvTimeoutError::Disconnected) => {
+                *slot = None;
+                Err(EvalError::Inconclusive("harness-panic:evaluation-thread-died".into()))
+            }
+        }
+    })
+}
+
+fn evaluate_inner(raw: &Project, optimize: bool) -> Result<Evaluation, EvalError> {
+    let mut project = raw.clone();
+    match guard(|| {
+        let _ = project.normalize_basic();
+    }) {
+        Ok(()) => (),
+        Err(p) => return Err(EvalError::Inconclusive(format!("normalize_basic-panic:{}", panic_site(&p)))),
+    }
+    if optimize {
+        match guard(|| {
+            let _ = project.normalize_optimize();
+        }) {
+            Ok(()) => (),
+            Err(p) => return Err(EvalError::Inconclusive(format!("normalize_optimize-panic:{}", panic_site(&p)))),
+        }
+    }
+    let sigs = match guard(|| {
+        let graph = get_program_cfg(&project.program);
+        let (sigs, _logs) = compute_function_signatures(&project, &graph);
+        sigs
+    }) {
+        Ok(s) => s,
+        Err(p) => return Err(EvalError::Panic(panic_site(&p), p)),
+    };
+    let (facts, params, sub_tids) = {
+        let oracle = Oracle::new(&project).map_err(EvalError::Inconclusive)?;
+        let facts = oracle.solve();
+        let params: Vec<String> = oracle.params.iter().map(|p| p.name.clone()).collect();
+        let sub_tids: Vec<Tid> = oracle.subs.iter().map(|s| s.tid.clone()).collect();
+        (facts, params, sub_tids)
+    };
+    let mut reported = Vec::new();
+    let mut misses = Vec::new();
+    for (i, t) in sub_tids.iter().enumerate() {
+        let rep: BTreeSet<String> = match sigs.get(t) {
+            Some(sig) => sig
+                .parameters
+                .keys()
+                .filter_map(|loc| match loc {
+                    AbstractLocation::Register(v) => Some(v.name.clone()),
+                    _ => None,
+                })
+                .collect(),
+            None => BTreeSet::new(),
+        };
+        for (r, name) in params.iter().enumerate() {
+            if facts[i].must & (1 << r) != 0 && !rep.contains(name) {
+                let classes: BTreeSet<String> = facts[i].uses.iter().filter(|u| u.reg == r).map(|u| u.class.clone()).collect();
+                let uses: Vec<String> = facts[i]
+                    .uses
+                    .iter()
+                    .filter(|u| u.reg == r)
+                    .map(|u| format!("{} in block #{} [{}]", u.class, u.blk, project.program.term.subs[t].term.blocks[u.blk].tid))
+                    .collect();
+                let missing_sig = if sigs.contains_key(t) { "" } else { ":no-signature-for-function" };
+                let (sig, key) = signature_of(&classes);
+                misses.push(Miss { sub: t.clone(), reg: name.clone(), signature: format!("{sig}{missing_sig}"), known_key: if missing_sig.is_empty() { key } else { None }, uses });
+            }
+        }
+        reported.push(rep);
+    }
+    Ok(Evaluation { project, sub_tids, facts, params, reported, misses })
+}
+
+fn program_size(p: &Project) -> u64 {
+    p.program.term.subs.values().map(|s| 3 + s.term.blocks.iter().map(|b| 2 + b.term.defs.len() as u64 + b.term.jmps.len() as u64).sum::<u64>()).sum()
+}
+
+fn case_json(raw: &Project, optimize: bool, miss_signature: &str) -> Value {
+    json!({"project": project_to_json(raw), "optimize": optimize, "miss_signature": miss_signature})
+}
+
+fn still_misses(raw: &Project, optimize: bool, signature: &str) -> bool {
+    match evaluate(raw, optimize) {
+        Ok(ev) => ev.misses.iter().any(|m| m.signature == signature),
+        Err(_) => false,
+    }
+}
+
+/// Greedy shrinking of a failing program: drop whole functions that nobody needs, drop defs, simplify
+/// two-way branches, drop jumps — as long as a miss with the same signature remains.
+pub fn shrink(raw: &Project, optimize: bool, signature: &str) -> Project {
+    let mut cur = raw.clone();
+    let mut budget = 400;
+    loop {
+        let mut progress = false;
+        // remove subs (calls to them are retargeted to the artificial sink by normalize_basic)
+        let tids: Vec<Tid> = cur.program.term.subs.keys().cloned().collect();
+        for t in tids {
+            if cur.program.term.subs.len() <= 1 || budget == 0 {
+                break;
+            }
+            let mut cand = cur.clone();
+            cand.program.term.subs.remove(&t);
+            cand.program.term.entry_points.remove(&t);
+            budget -= 1;
+            if still_misses(&cand, optimize, signature) {
+                cur = cand;
+                progress = true;
+            }
+        }
+        let tids: Vec<Tid> = cur.program.term.subs.keys().cloned().collect();
+        for t in &tids {
+            let nb = cur.program.term.subs[t].term.blocks.len();
+            for b in (0..nb).rev() {
+                // drop a non-entry block entirely
+                if b > 0 && budget > 0 {
+                    let mut cand = cur.clone();
+                    cand.program.term.subs.get_mut(t).unwrap().term.blocks.remove(b);
+                    budget -= 1;
+                    if still_misses(&cand, optimize, signature) {
+                        cur = cand;
+                        progress = true;
+                        continue;
+                    }
+                }
+                let nd = cur.program.term.subs[t].term.blocks[b].term.defs.len();
+                for d in (0..nd).rev() {
+                    if budget == 0 {
+                        break;
+                    }
+                    let mut cand = cur.clone();
+                    cand.program.term.subs.get_mut(t).unwrap().term.blocks[b].term.defs.remove(d);
+                    budget -= 1;
+                    if still_misses(&cand, optimize, signature) {
+                        cur = cand;
+                        progress = true;
+                    }
+                }
+                let nj = cur.program.term.subs[t].term.blocks[b].term.jmps.len();
+                for j in (0..nj).rev() {
+                    if budget == 0 {
+                        break;
+                    }
+                    let mut cand = cur.clone();
+                    {
+                        let blk = &mut cand.program.term.subs.get_mut(t).unwrap().term.blocks[b];
+                        blk.term.jmps.remove(j);
+                        if !blk.term.jmps.iter().any(|x| matches!(x.term, Jmp::BranchInd(_))) {
+                            blk.term.indirect_jmp_targets.clear();
+                        }
+                    }
+                    budget -= 1;
+                    if still_misses(&cand, optimize, signature) {
+                        cur = cand;
+                        progress = true;
+                    }
+                }
+            }
+        }
+        if !progress || budget == 0 {
+            return cur;
+        }
+    }
+}
+
+/// Shrink the kept witness of every miss signature (done once per signature after the shards were merged).
+fn minimize_violations(rep: &mut Report) {
+    let sigs: Vec<String> = rep.violations.keys().cloned().collect();
+    for sig in sigs {
+        let v = rep.violations[&sig].clone();
+        let miss_sig = v.case["miss_signature"].as_str().unwrap_or("").to_string();
+        if miss_sig.is_empty() {
+            continue;
+        }
+        let optimize = v.case["optimize"].as_bool().unwrap_or(false);
+        let raw = match project_from_json(&v.case["project"]) {
+            Ok(p) => p,
+            Err(_) => continue,
+        };
+        let small = match guard(|| shrink(&raw, optimize, &miss_sig)) {
+            Ok(s) => s,
+            Err(_) => continue,
+        };
+        if let Ok(ev) = evaluate(&small, optimize) {
+            if let Some(m) = ev.misses.iter().find(|x| x.signature == miss_sig) {
+                let nv = Violation { signature: sig.clone(), known_key: v.known_key.clone(), detail: describe(&ev, m), case: case_json(&small, optimize, &miss_sig), size: program_size(&small) };
+                rep.violations.insert(sig, nv);
+            }
+        }
+    }
+}
+
+fn show_program_with_externs(p: &Project) -> String {
+    let mut out = show_program(&p.program.term);
+    for e in p.program.term.extern_symbols.values() {
+        let ps: Vec<String> = e
+            .parameters
+            .iter()
+            .map(|a| match a {
+                Arg::Register { expr, .. } => format!("{expr}"),
+                Arg::Stack { address, size, .. } => format!("stack[{address}]:{size}"),
+            })
+            .collect();
+        out += &format!("  declared parameters of {}: ({})\n", e.name, ps.join(", "));
+    }
+    let cc = p.get_standard_calling_convention().unwrap();
+    out += &format!("  calling convention: parameters {:?}, callee-saved {:?}\n", cc.integer_parameter_register.iter().map(|v| v.name.as_str()).collect::<Vec<_>>(), cc.callee_saved_register.iter().map(|v| v.name.as_str()).collect::<Vec<_>>());
+    out
+}
+
+fn describe(ev: &Evaluation, m: &Miss) -> String {
+    let i = ev.sub_tids.iter().position(|t| *t == m.sub).unwrap();
+    format!(
+        "function {} reads the entry value of parameter register {} but it is not among the reported register parameters.\n  expected (must-report, from the upward-exposed-use oracle): {:?}\n  observed FunctionSignature.parameters (registers): {:?}\n  upward-exposed uses of {}: {}\n--- normalised program given to the analysis:\n{}",
+        m.sub,
+        m.reg,
+        mask_names(ev.facts[i].must, &ev.params),
+        ev.reported[i],
+        m.reg,
+        m.uses.join("; "),
+        show_program_with_externs(&ev.project)
+    )
+}
+
+/// Check one generated program (before normalisation) in one normalisation mode.
+pub fn check_case(raw: &Project, optimize: bool, rep: &mut Report, want_sample: bool) {
+    let mode = if optimize { "optimize" } else { "basic" };
+    let ev = match evaluate(raw, optimize) {
+        Ok(ev) => ev,
+        Err(EvalError::Inconclusive(why)) => {
+            rep.inconclusive(&why);
+            return;
+        }
+        Err(EvalError::Timeout) => {
+            // Like a panic: the analysis gives no signature at all for an input of the property's domain.
+            TIMEOUTS.fetch_add(1, std::sync::atomic::Ordering::SeqCst);
+            rep.eval();
+            rep.violation(
+                format!("hang:no-result-within-{EVAL_TIMEOUT_S}s"),
+                None,
+                format!(
+                    "normalisation + CFG construction + compute_function_signatures ({mode}) did not finish within {EVAL_TIMEOUT_S} s (normal cost: milliseconds)\n{}",
+                    show_program_with_externs(raw)
+                ),
+                case_json(raw, optimize, ""),
+                program_size(raw),
+            );
+            return;
+        }
+        Err(EvalError::Panic(site, msg)) => {
+            rep.eval();
+            rep.violation(
+                format!("panic:{site}"),
+                None,
+                format!("CFG construction / compute_function_signatures panicked ({mode}): {msg}\n{}", show_program_with_externs(raw)),
+                case_json(raw, optimize, ""),
+                program_size(raw),
+            );
+            return;
+        }
+    };
+    rep.obs(&format!("mode:{mode}"));
+    let prog_fp = fp_of(&ev.project.program);
+    let all = (1u32 << ev.params.len()) - 1;
+    for (i, t) in ev.sub_tids.iter().enumerate() {
+        if t.is_artificial_sink_sub() {
+            continue;
+        }
+        let f = &ev.facts[i];
+        rep.evals(ev.params.len() as u64);
+        rep.obs(&format!("must-report-size:{}", f.must.count_ones()));
+        rep.obs(&format!("reachable-blocks:{}", f.reachable_blocks));
+        let mut seen = BTreeSet::new();
+        for u in &f.uses {
+            if seen.insert((&u.class, u.reg)) {
+                rep.obs(&format!("exposed-use:{}", u.class));
+            }
+        }
+        for (r, c) in &f.excluded {
+            if f.must & (1 << r) == 0 {
+                let got = ev.reported[i].contains(&ev.params[*r]);
+                rep.obs(&format!("not-demanded:{c}:only-use:{}", if got { "reported-anyway" } else { "not-reported" }));
+            }
+        }
+        if f.read_only_after_kill != 0 {
+            rep.obs("has-register-read-only-after-overwrite");
+        }
+        let over = ev.reported[i].iter().filter(|n| ev.params.iter().position(|p| p == *n).map(|r| f.must & (1 << r) == 0).unwrap_or(false)).count();
+        if over > 0 {
+            rep.obs("reported-more-than-must(allowed)");
+        }
+        let nontrivial = f.reachable_blocks >= 2 && ((f.must != 0 && f.must != all) || f.read_only_after_kill != 0);
+        if nontrivial {
+            rep.nontrivial(crate::prng::mix(prog_fp, crate::prng::hash_str(&format!("{t}:{mode}"))));
+        }
+    }
+    if want_sample && rep.wants_sample() {
+        rep.sample(json!({
+            "mode": mode,
+            "program": show_program_with_externs(&ev.project),
+            "functions": ev.sub_tids.iter().enumerate().filter(|(_, t)| !t.is_artificial_sink_sub()).map(|(i, t)| json!({
+                "function": format!("{t}"),
+                "expected_must_report": mask_names(ev.facts[i].must, &ev.params),
+                "exposed_uses": ev.facts[i].uses.iter().map(|u| format!("{}:{}@blk#{}", ev.params[u.reg], u.class, u.blk)).collect::<Vec<_>>(),
+                "observed_register_parameters": ev.reported[i],
+            })).collect::<Vec<_>>(),
+        }));
+    }
+    // one violation per signature of this program
+    let mut done: BTreeSet<String> = BTreeSet::new();
+    for m in &ev.misses {
+        if !done.insert(m.signature.clone()) {
+            rep.violation_count += 1;
+            continue;
+        }
+        let (small, detail) = (raw.clone(), describe(&ev, m));
+        rep.violation(m.signature.clone(), m.known_key, detail, case_json(&small, optimize, &m.signature), program_size(&small));
+    }
+}
+
+// ---------------------------------------------------------------------------------------------
+// Generator
+
+const SCRATCH: &[&str] = &["RAX", "RBX", "R10", "R11", "R12"];
+
+struct Gen<'a> {
+    rng: &'a mut Rng,
+    counter: u32,
+    /// parameter registers this function mostly talks about
+    focus: Vec<&'static str>,
+    temps8: Vec<Variable>,
+}
+
+impl<'a> Gen<'a> {
+    fn fresh(&mut self, prefix: &str) -> Tid {
+        self.counter += 1;
+        tid(&format!("{prefix}_{}", self.counter), &format!("{:06x}", 0x1000 + self.counter * 4))
+    }
+
+    fn preg(&mut self) -> &'static str {
+        if !self.focus.is_empty() && self.rng.chance(9, 10) {
+            *self.rng.pick(&self.focus)
+        } else {
+            *self.rng.pick(PARAM_REGS)
+        }
+    }
+
+    fn scratch(&mut self) -> &'static str {
+        *self.rng.pick(SCRATCH)
+    }
+
+    fn flagname(&mut self) -> &'static str {
+        *self.rng.pick(FLAGS)
+    }
+
+    fn small_const(&mut self) -> i64 {
+        *self.rng.pick(&[0i64, 1, -1, 4, 8, -8, 16, 24, 0x40, 0x1000])
+    }
+
+    /// 8-byte leaf: parameter register (mostly), scratch register, temporary or constant
+    fn leaf8(&mut self) -> Expression {
+        match self.rng.below(10) {
+            0..=5 => e_reg(self.preg()),
+            6 | 7 => e_reg(self.scratch()),
+            8 if !self.temps8.is_empty() => e_var(&self.rng.pick(&self.temps8).clone()),
+            _ => e_const(self.small_const(), 8),
+        }
+    }
+
+    fn sub4(&mut self) -> Expression {
+        let r = self.preg();
+        let low = *self.rng.pick(&[0u32, 0, 0, 4]);
+        e_subpiece(low, 4, e_reg(r))
+    }
+
+    /// 8-byte expression that is not a bare variable
+    fn e8(&mut self, depth: u32) -> Expression {
+        use BinOpType::*;
+        match self.rng.below(12) {
+            0..=4 => {
+                let op = *self.rng.pick(&[IntAdd, IntAdd, IntSub, IntAnd, IntOr, IntXOr, IntMult]);
+                let l = if depth > 0 && self.rng.chance(1, 3) { self.e8(depth - 1) } else { self.leaf8() };
+                let r = if self.rng.bool() { e_const(self.small_const(), 8) } else { self.leaf8() };
+                if self.rng.chance(1, 5) {
+                    e_bin(op, r, l)
+                } else {
+                    e_bin(op, l, r)
+                }
+            }
+            5 => {
+                let a = self.leaf8();
+                e_bin(*self.rng.pick(&[IntLeft, IntRight, IntSRight]), a, e_const(*self.rng.pick(&[1i64, 3, 32]), 1))
+            }
+            6 => e_un(*self.rng.pick(&[UnOpType::IntNegate, UnOpType::Int2Comp]), self.leaf8()),
+            7 | 8 => e_cast(*self.rng.pick(&[CastOpType::IntZExt, CastOpType::IntSExt]), 8, self.sub4()),
+            9 => {
+                let hi = self.sub4();
+                let lo = self.sub4();
+                e_bin(Piece, hi, lo)
+            }
+            10 => {
+                let r = self.preg();
+                e_cast(CastOpType::IntZExt, 8, e_subpiece(0, 1, e_reg(r)))
+            }
+            _ => {
+                let r = self.preg();
+                e_bin(IntAdd, e_reg(r), e_const(self.small_const(), 8))
+            }
+        }
+    }
+
+    fn cond(&mut self, depth: u32) -> Expression {
+        use BinOpType::*;
+        match self.rng.below(10) {
+            0..=3 => {
+                let op = *self.rng.pick(&[IntEqual, IntNotEqual, IntLess, IntSLess, IntLessEqual, IntSLessEqual]);
+                let l = self.leaf8();
+                let r = if self.rng.bool() { e_const(self.small_const(), 8) } else { self.leaf8() };
+                // never a constant condition
+                let l = if inputs(&l).is_empty() && inputs(&r).is_empty() { e_reg(self.preg()) } else { l };
+                e_bin(op, l, r)
+            }
+            4 => {
+                let l = self.sub4();
+                e_bin(*self.rng.pick(&[IntEqual, IntNotEqual, IntSLess]), l, e_const(self.small_const(), 4))
+            }
+            5 | 6 => e_var(&var(self.flagname(), 1)),
+            7 if depth > 0 => e_un(UnOpType::BoolNegate, self.cond(depth - 1)),
+            8 if depth > 0 => {
+                let a = self.cond(depth - 1);
+                let b = self.cond(depth - 1);
+                e_bin(*self.rng.pick(&[BoolAnd, BoolOr, BoolXOr]), a, b)
+            }
+            _ => {
+                let r = self.preg();
+                e_bin(IntNotEqual, e_subpiece(0, 1, e_reg(r)), e_const(0, 1))
+            }
+        }
+    }
+
+    fn addr(&mut self) -> Expression {
+        let off = *self.rng.pick(&[0i64, 0, 8, -8, 16, -16, 4, 24, 0x100]);
+        match self.rng.below(12) {
+            0 | 1 => e_reg_off("RSP", off),
+            2 => e_reg_off("RBP", off),
+            3..=6 => e_reg_off(self.preg(), off),
+            7 | 8 => e_reg_off(self.scratch(), off),
+            9 => e_const(0x601000 + off.abs(), 8),
+            10 => {
+                // base + index*scale
+                let b = self.preg();
+                let i = self.preg();
+                e_bin(BinOpType::IntAdd, e_reg(b), e_bin(BinOpType::IntMult, e_reg(i), e_const(8, 8)))
+            }
+            _ => self.e8(0),
+        }
+    }
+
+    fn def(&mut self, defs: &mut Vec<Term<Def>>) {
+        let t = self.fresh("def");
+        match self.rng.below(24) {
+            0..=2 => {
+                // scratch := expression / copy
+                let target = reg(self.scratch());
+                let e = if self.rng.chance(1, 3) { e_reg(self.preg()) } else { self.e8(1) };
+                defs.push(assign(t, target, e));
+            }
+            3 | 4 => {
+                let e = self.cond(1);
+                defs.push(assign(t, var(self.flagname(), 1), e));
+            }
+            5 => {
+                let v = tmp(&format!("$U{}", self.counter), 8);
+                let e = if self.rng.chance(1, 4) { e_reg(self.preg()) } else { self.e8(1) };
+                defs.push(assign(t, v.clone(), e));
+                self.temps8.push(v);
+            }
+            6..=8 => {
+                // overwrite a parameter register with something that does not read it
+                let r = self.preg();
+                let e = match self.rng.below(4) {
+                    0 => e_const(self.small_const(), 8),
+                    1 => e_reg(self.scratch()),
+                    2 => e_bin(BinOpType::IntAdd, e_reg(self.scratch()), e_const(self.small_const(), 8)),
+                    _ => {
+                        // copy of another parameter register
+                        let o = self.preg();
+                        e_reg(o)
+                    }
+                };
+                defs.push(assign(t, reg(r), e));
+            }
+            9 => {
+                // read-modify-write of a parameter register
+                let r = self.preg();
+                let e = match self.rng.below(3) {
+                    0 => e_bin(BinOpType::IntAdd, e_reg(r), e_const(self.small_const(), 8)),
+                    1 => e_bin(BinOpType::IntXOr, e_reg(r), e_reg(r)),
+                    _ => e_cast(CastOpType::IntZExt, 8, e_subpiece(0, 4, e_reg(r))),
+                };
+                defs.push(assign(t, reg(r), e));
+            }
+            10 | 11 => {
+                // load into a parameter register
+                let a = self.addr();
+                let r = self.preg();
+                defs.push(load(t, reg(r), a));
+            }
+            12 | 13 => {
+                let a = self.addr();
+                if self.rng.chance(1, 4) {
+                    let v = tmp(&format!("$U{}", self.counter), 8);
+                    defs.push(load(t, v.clone(), a));
+                    self.temps8.push(v);
+                } else {
+                    defs.push(load(t, reg(self.scratch()), a));
+                }
+            }
+            14..=19 => {
+                let a = self.addr();
+                let v = match self.rng.below(10) {
+                    0..=3 => e_reg(self.preg()),
+                    4..=6 => self.e8(1),
+                    7 => e_const(self.small_const(), 8),
+                    8 => e_reg(self.scratch()),
+                    _ => self.sub4(),
+                };
+                defs.push(store(t, a, v));
+            }
+            20 => {
+                // push-like spill
+                defs.push(assign(t, reg("RSP"), e_bin(BinOpType::IntSub, e_reg("RSP"), e_const(8, 8))));
+                let t2 = self.fresh("def");
+                let r = if self.rng.bool() { self.preg() } else { *self.rng.pick(&["RBP", "RBX", "R12"]) };
+                defs.push(store(t2, e_reg("RSP"), e_reg(r)));
+            }
+            21 => {
+                if self.rng.chance(1, 3) {
+                    defs.push(assign(t, reg("RBP"), e_reg("RSP")));
+                } else {
+                    let c = *self.rng.pick(&[8i64, 16, 32]);
+                    let op = *self.rng.pick(&[BinOpType::IntSub, BinOpType::IntAdd]);
+                    defs.push(assign(t, reg("RSP"), e_bin(op, e_reg("RSP"), e_const(c, 8))));
+                }
+            }
+            _ => {
+                // scratch := scratch (keeps other registers busy)
+                let a = reg(self.scratch());
+                let b = reg(self.scratch());
+                defs.push(assign(t, a, e_var(&b)));
+            }
+        }
+    }
+
+    fn function(&mut self, name: &str, sub_tids: &[Tid], externs: &[Tid], indirect_call_weight: u64) -> Term<Sub> {
+        let n = match self.rng.below(10) {
+            0 => 1,
+            1 | 2 => 2,
+            3 | 4 => 3,
+            5 | 6 => 4,
+            _ => self.rng.range_usize(5, 8),
+        };
+        let nf = self.rng.range_usize(1, 4);
+        let mut regs: Vec<&'static str> = PARAM_REGS.to_vec();
+        self.rng.shuffle(&mut regs);
+        self.focus = regs[..nf].to_vec();
+        let blk_tids: Vec<Tid> = (0..n).map(|i| tid(&format!("blk_{name}_{i}"), &format!("{name}{i:02}"))).collect();
+        let mut blocks = Vec::new();
+        for i in 0..n {
+            self.temps8.clear();
+            let mut defs = Vec::new();
+            let nd = match self.rng.below(8) {
+                0 => 0,
+                1..=3 => 1,
+                4 | 5 => 2,
+                6 => 3,
+                _ => 4,
+            };
+            for _ in 0..nd {
+                self.def(&mut defs);
+            }
+            let last = i + 1 == n;
+            let pick_target = |rng: &mut Rng| -> Tid {
+                if i + 1 < n && rng.chance(3, 4) {
+                    blk_tids[rng.range_usize(i + 1, n - 1)].clone()
+                } else {
+                    blk_tids[rng.usize_below(n)].clone()
+                }
+            };
+            let ret_site = |rng: &mut Rng| -> Option<Tid> {
+                if rng.chance(1, 9) {
+                    None
+                } else {
+                    Some(pick_target(rng))
+                }
+            };
+            let mut jmps = Vec::new();
+            let mut indirect_targets = Vec::new();
+            let mut choice = if last && self.rng.chance(4, 5) { 100 } else { self.rng.below(44 + indirect_call_weight) };
+            if i == 0 && n > 1 && matches!(choice, 39..=43 | 100) {
+                choice = 6; // the entry block of a multi-block function does not end the function
+            }
+            match choice {
+                0..=5 => jmps.push(jmp(self.fresh("jmp"), Jmp::Branch(pick_target(self.rng)))),
+                6..=17 => {
+                    let c = self.cond(1);
+                    let t1 = pick_target(self.rng);
+                    let t2 = pick_target(self.rng);
+                    jmps.push(jmp(self.fresh("jmp"), Jmp::CBranch { target: t1, condition: c }));
+                    jmps.push(jmp(self.fresh("jmp"), Jmp::Branch(t2)));
+                }
+                18 => {
+                    // conditional jump without a second jump
+                    let c = self.cond(1);
+                    let t1 = pick_target(self.rng);
+                    jmps.push(jmp(self.fresh("jmp"), Jmp::CBranch { target: t1, condition: c }));
+                }
+                19..=21 => {
+                    // indirect jump (jump table) with 1-2 known targets, sometimes none
+                    let e = if self.rng.chance(1, 3) { e_reg(self.preg()) } else { self.e8(0) };
+                    let k = *self.rng.pick(&[0usize, 1, 2, 2]);
+                    for _ in 0..k {
+                        indirect_targets.push(pick_target(self.rng));
+                    }
+                    jmps.push(jmp(self.fresh("jmp"), Jmp::BranchInd(e)));
+                }
+                22..=29 | 36..=38 if !externs.is_empty() => {
+                    let target = self.rng.pick(externs).clone();
+                    let r = ret_site(self.rng);
+                    jmps.push(jmp(self.fresh("call"), Jmp::Call { target, return_: r }));
+                }
+                30..=35 => {
+                    let target = self.rng.pick(sub_tids).clone();
+                    let r = ret_site(self.rng);
+                    jmps.push(jmp(self.fresh("call"), Jmp::Call { target, return_: r }));
+                }
+                39..=41 => {
+                    let e = if self.rng.chance(1, 4) { e_reg("RAX") } else { e_var(&tmp("$Uret", 8)) };
+                    if let Expression::Var(v) = &e {
+                        if v.is_temp {
+                            defs.push(load(self.fresh("def"), v.clone(), e_reg("RSP")));
+                            defs.push(assign(self.fresh("def"), reg("RSP"), e_bin(BinOpType::IntAdd, e_reg("RSP"), e_const(8, 8))));
+                        }
+                    }
+                    jmps.push(jmp(self.fresh("jmp"), Jmp::Return(e)));
+                }
+                42 => (), // dead end: block without jumps
+                43 => {
+                    // return through a parameter register (not demanded, observed)
+                    let r = self.preg();
+                    jmps.push(jmp(self.fresh("jmp"), Jmp::Return(e_reg(r))));
+                }
+                100 => {
+                    let v = tmp("$Uret", 8);
+                    defs.push(load(self.fresh("def"), v.clone(), e_reg("RSP")));
+                    defs.push(assign(self.fresh("def"), reg("RSP"), e_bin(BinOpType::IntAdd, e_reg("RSP"), e_const(8, 8))));
+                    jmps.push(jmp(self.fresh("jmp"), Jmp::Return(e_var(&v))));
+                }
+                _ => {
+                    // indirect call
+                    let e = match self.rng.below(3) {
+                        0 => e_reg(self.preg()),
+                        1 => e_reg(self.scratch()),
+                        _ => self.e8(0),
+                    };
+                    let r = ret_site(self.rng);
+                    jmps.push(jmp(self.fresh("call"), Jmp::CallInd { target: e, return_: r }));
+                }
+            }
+            let mut b = blk(blk_tids[i].clone(), defs, jmps);
+            b.term.indirect_jmp_targets = indirect_targets;
+            blocks.push(b);
+        }
+        let mut s = sub(tid(&format!("sub_{name}"), &format!("{name}00")), name, blocks);
+        if self.rng.bool() {
+            s.term.calling_convention = Some("__stdcall".to_string());
+        }
+        s
+    }
+}
+
+fn gen_extern(rng: &mut Rng, name: &str, no_return: bool, allow_subreg: bool) -> ExternSymbol {
+    let t = tid(&format!("sub_{name}"), name);
+    let k = if no_return { rng.range_usize(0, 2) } else { rng.range_usize(1, 3) };
+    let mut regs: Vec<&'static str> = PARAM_REGS.to_vec();
+    // mostly a prefix of the convention's order, sometimes an arbitrary subset
+    if rng.chance(1, 2) {
+        rng.shuffle(&mut regs);
+    }
+    let params: Vec<&str> = regs[..k].to_vec();
+    let mut sym = extern_symbol(name, t, &params, Some("RAX"), no_return);
+    if allow_subreg && !sym.parameters.is_empty() {
+        let i = rng.usize_below(sym.parameters.len());
+        let r = params[i];
+        let expr = match rng.below(3) {
+            0 => e_subpiece(0, 4, e_reg(r)),
+            1 => e_subpiece(0, 1, e_reg(r)),
+            _ => e_subpiece(0, 2, e_reg(r)),
+        };
+        sym.parameters[i] = Arg::Register { expr, data_type: None };
+    }
+    sym
+}
+
+/// Generate one program (not normalised).
+pub fn gen_project(rng: &mut Rng) -> Project {
+    let mut externs = vec![gen_extern(rng, "ext_fn_1", false, false)];
+    if rng.chance(3, 4) {
+        let sub = rng.chance(1, 3);
+        externs.push(gen_extern(rng, "ext_fn_2", false, sub));
+    }
+    if rng.chance(1, 2) {
+        externs.push(gen_extern(rng, "ext_halt_3", true, false));
+    }
+    let ext_tids: Vec<Tid> = externs.iter().map(|e| e.tid.clone()).collect();
+    let n_subs = match rng.below(8) {
+        0 | 1 => 1,
+        2..=4 => 2,
+        5 | 6 => 3,
+        _ => 4,
+    };
+    let names: Vec<String> = (0..n_subs).map(|i| format!("f{i}")).collect();
+    let sub_tids: Vec<Tid> = names.iter().map(|n| tid(&format!("sub_{n}"), &format!("{n}00"))).collect();
+    let indirect_weight = *rng.pick(&[0u64, 0, 1, 3]);
+    let mut g = Gen { rng, counter: 0, focus: vec![], temps8: vec![] };
+    let mut subs = Vec::new();
+    for n in &names {
+        subs.push(g.function(n, &sub_tids, &ext_tids, indirect_weight));
+    }
+    let entry = subs[0].tid.clone();
+    let mut project = project_x64(program(subs, externs, Some(entry)));
+    if g.rng.chance(1, 8) {
+        // "Sometimes parameter registers are callee-saved": declare one or two of them callee-saved
+        let cc = project.calling_conventions.get_mut("__stdcall").unwrap();
+        let k = g.rng.range_usize(1, 2);
+        // (never a return register: RDX is one in this convention)
+        let mut regs: Vec<&'static str> = PARAM_REGS.iter().copied().filter(|r| *r != "RDX").collect();
+        g.rng.shuffle(&mut regs);
+        for r in &regs[..k] {
+            cc.callee_saved_register.push(reg(r));
+        }
+    }
+    project
+}
+
+fn run(cfg: &Cfg) -> Report {
+    let shards = cfg.tier.pick(256usize, 2048usize);
+    let per_shard = cfg.tier.pick(120usize, 320usize);
+    let mut rep = par_shards(cfg, "c14", shards, |idx, rng, rep| {
+        for i in 0..per_shard {
+            if TIMEOUTS.load(std::sync::atomic::Ordering::SeqCst) >= MAX_TIMEOUTS {
+                rep.inconclusive("program-skipped-after-repeated-timeouts");
+                continue;
+            }
+            let raw = match guard(|| gen_project(rng)) {
+                Ok(p) => p,
+                Err(msg) => {
+                    rep.inconclusive(&format!("generator-panic:{}", panic_site(&msg)));
+                    continue;
+                }
+            };
+            if i == 0 {
+                let errs = crate::typing::check_project(&raw, true);
+                if !errs.is_empty() {
+                    rep.inconclusive("generator-produced-ill-typed-program");
+                    rep.note(format!("ill-typed generated program: {}", errs[0]));
+                    continue;
+                }
+            }
+            let want_sample = idx < 3 && i == 0;
+            check_case(&raw, false, rep, want_sample);
+            if i % 3 == 0 {
+                check_case(&raw, true, rep, false);
+            }
+        }
+    });
+    minimize_violations(&mut rep);
+    rep.note("shapes driven are summarised by the observed keys exposed-use:*, must-report-size:*, reachable-blocks:*; not-demanded:* counts the deliberately excluded use classes and what the analysis did with them");
+    rep
+}
+
+fn replay(_cfg: &Cfg, case: &Value) -> Report {
+    let mut rep = Report::new();
+    match project_from_json(&case["project"]) {
+        Ok(raw) => {
+            let optimize = case["optimize"].as_bool().unwrap_or(false);
+            check_case(&raw, optimize, &mut rep, true);
+        }
+        Err(e) => rep.note(format!("cannot parse replay case: {e}")),
+    }
+    rep
 }
